@@ -59,7 +59,7 @@ Section Call.
   Lemma cache_wi : forall w i,
       wi (ph_cache w) i =
       if mem i (c_ins c)
-      then mk_istate (in_exch (wi w i)) (upd_cache c (ex_eff sp a w i) (in_cache (wi w i))) (in_data (wi w i))
+      then mk_istate (in_exch (wi w i)) (upd_cache c (ex_eff sp c a w i) (in_cache (wi w i))) (in_data (wi w i))
       else wi w i.
   Proof. intros. unfold phase_cache. simpl. rewrite override_spec. reflexivity. Qed.
 
@@ -68,7 +68,7 @@ Section Call.
       if mem o (c_outs c)
       then let st := wo w o in
            mk_ostate (o_info st) (o_exch st) (o_data st) (o_hinfo st) (o_ipushed st) (o_dpushed st)
-                     (upd_cache c (pi_eff sp a w o) (o_icache st)) (upd_cache c (pd_eff a w o) (o_dcache st))
+                     (upd_cache c (pi_eff sp c a w o) (o_icache st)) (upd_cache c (pd_eff a w o) (o_dcache st))
       else wo w o.
   Proof. intros. unfold phase_cache. simpl. rewrite override_spec. reflexivity. Qed.
 
